@@ -396,15 +396,28 @@ def canon_param(v):
 
 def top_port_names(design):
     """Expected {flattened top port name: width} of the top module (documented `inst_member_path` naming)."""
+    return {k: v[1] for k, v in top_port_labels(design).items()}
+
+
+def top_port_labels(design):
+    """{documented flattened port name: (label used in partitions, width)}.  Scalar ports are labelled by their own name,
+    members of bundle-valued ports by the dotted path `port.member.path` (so that a designer port called `pb_x` and the
+    member x of bundle port pb stay distinguishable whatever name the flattener picks)."""
     mod = design["modules"][design["top"]]
     out = {}
     for d in mod["decls"]:
-        if d[0] == "port":
-            out[d[1]] = d[2]
-        elif d[0] == "bport":
+        if d[0] == "bport":
             for p, w in bundle_leaves(design, d[2]):
-                out[d[1] + "_" + "_".join(p)] = w
+                out[d[1] + "_" + "_".join(p)] = (d[1] + "." + ".".join(p), w)
+    for d in mod["decls"]:
+        if d[0] == "port":
+            out[d[1]] = (d[1], d[2])  # an explicitly declared port owns its name
     return out
+
+
+def scalar_top_ports(design):
+    mod = design["modules"][design["top"]]
+    return {d[1]: d[2] for d in mod["decls"] if d[0] == "port"}
 
 
 def R(design):
@@ -440,7 +453,6 @@ def R(design):
                     n = node((), d[1] + "." + ".".join(p), i)
                     keep.add(n)
                     uf.find(n)
-                    topmap[n] = node((), d[1] + "_" + "_".join(p), i)
     classes = {}
     for n in keep:
         classes.setdefault(uf.find(n), set()).add(topmap.get(n, n))
